@@ -78,6 +78,30 @@ def fd_snapshot():
     return out
 
 
+def children():
+    """Processes whose parent is this process (live or zombie): [pid, state, command]."""
+    pids = set()
+    try:
+        for tid in os.listdir("/proc/self/task"):
+            with open("/proc/self/task/%s/children" % tid) as f:
+                pids.update(f.read().split())
+    except OSError:
+        pids = {n for n in os.listdir("/proc") if n.isdigit()}
+    me = str(os.getpid())
+    out = []
+    for name in sorted(pids, key=int):
+        try:
+            with open("/proc/%s/stat" % name) as f:
+                st = f.read()
+        except OSError:
+            continue
+        comm = st[st.index("(") + 1:st.rindex(")")]
+        rest = st[st.rindex(")") + 2:].split()
+        if rest[1] == me:
+            out.append([int(name), rest[0], comm])
+    return out
+
+
 def fd_new(before, after):
     return sorted("%s -> %s" % (k, v) for k, v in after.items() if before.get(k) != v)
 
@@ -174,7 +198,9 @@ def op_c20_sweep(job, drv):
                 tr.remove()
             gc.collect()
             leak0 = fd_new(fd0, fd_snapshot())
+            kids0 = children()
             entry = {"name": rq["name"], "events": "".join(tr.events), "writes": wf.n, "exc": base["exc"],
+                     "children": kids0,
                      "out": drv.b2s(wf.final[:200]), "log": base["log"][-4:], "fd_left": leak0, "cases": []}
             ks = range(wf.n) if job.get("every_index", True) else sorted(set([0, wf.n // 2, max(wf.n - 1, 0)]))
             for k in ks:
@@ -187,7 +213,14 @@ def op_c20_sweep(job, drv):
                         nogc = fd_new(before, fd_snapshot())
                         gc.collect()
                         aftergc = fd_new(before, fd_snapshot())
-                        entry["cases"].append({"k": k, "span": span, "cls": cls, "exc": r["exc"],
+                        kids = [c for c in children() if c[0] not in [x[0] for x in kids0]]
+                        for pid, _, _ in kids:        # do not let one leftover spoil the next case
+                            try:
+                                os.kill(pid, 9)
+                                os.waitpid(pid, 0)
+                            except OSError:
+                                pass
+                        entry["cases"].append({"k": k, "span": span, "cls": cls, "exc": r["exc"], "children": kids,
                                                "records": post_fault_records(r["log"]), "writes": fw.n,
                                                "fd_nogc": nogc, "fd_gc": aftergc, "log": r["log"][-5:]})
             res.append(entry)
@@ -296,6 +329,7 @@ def op_c20_live(job, drv):
         idle()
         gc.collect()
         fd0 = fd_snapshot()
+        kids0 = [c[0] for c in children()]
         for r in job["clients"]:
             del drv._logsink[:]
             del escaped[:]
@@ -304,6 +338,14 @@ def op_c20_live(job, drv):
             nogc = fd_new(fd0, fd_snapshot())
             gc.collect()
             left = fd_new(fd0, fd_snapshot())
+            time.sleep(0.05)
+            kids = [c for c in children() if c[0] not in kids0]
+            for pid, _, _ in kids:
+                try:
+                    os.kill(pid, 9)
+                    os.waitpid(pid, 0)
+                except OSError:
+                    pass
             recs = []
             for line in list(drv._logsink):
                 m = LOGRE.match(line)
@@ -311,6 +353,7 @@ def op_c20_live(job, drv):
                     recs.append([m.group(4), m.group(1), m.group(2)])
             out["clients"].append({"name": r["name"], "received": got, "client_error": err, "settled": settled,
                                    "records": recs, "escaped": list(escaped), "fd_nogc": nogc, "fd_left": left,
+                                   "children": kids,
                                    "log": list(drv._logsink)[-4:]})
     finally:
         srv.shutdown()
